@@ -844,6 +844,10 @@ def run_c01(args):
                         "the source pixel a destination pixel sees under the five presentations is the sampling rule of C08 "
                         "(integer translation, exact 2x scale, PAD clamp, 1+1/65536 scale at small coordinates)",
                         "TLC/SANY and the CommunityModules Json reader are trusted"]
+    # root specification (spec/Pixman.tla): region operations -> clip -> composite; every pixel of the composite
+    # region must receive the operator's value (exact class), whatever history built the clip
+    import pipeline
+    pipeline.stage(chk, args)
     return chk.finish()
 
 
